@@ -106,6 +106,13 @@ func runR02_1(c *Ctx, outer *R) {
 	e.dbg = os.Getenv("DBGBE") != ""
 	cone := readCone(c)
 	r.Note("read cone: %d functions", len(cone))
+	var module []*ssa.Function
+	for _, rel := range analysedPkgs {
+		module = append(module, c.SrcFuncs(rel)...)
+	}
+	if pre := e.inferPre(cone, module); len(pre) > 0 {
+		r.Note("inferred preconditions of private helpers (proved at every call site, assumed in the body): %s", strings.Join(pre, "; "))
+	}
 	kinds := map[string]int{}
 	for _, fn := range cone {
 		obs := e.verifyFunc(fn)
